@@ -18,6 +18,7 @@ from vlib import *
 import c11_tagmode as TM
 import c11_status as ST
 import c11_param as PM
+import c11_refs as RF
 
 # ---------------------------------------------------------------- AST helpers
 # module = (tagging 'E'|'I'|'A', [def]);  def = (name, tag, ty)
@@ -882,7 +883,7 @@ def run_asn1c(args):
     else:
         verdict = "REJECT"
     res = {"rc": rc, "verdict": verdict, "classes": sorted(classes), "unknown": unknown, "nfiles": len(files),
-           "ndiag": len(diag), "stderr_tail": "\n".join(diag[-6:])[-800:]}
+           "nfatal": sum(1 for l in err.split("\n") if l.startswith("FATAL:")), "nclashfatal": RF.clash_fatals(err), "ndiag": len(diag), "stderr_tail": "\n".join(diag[-6:])[-800:]}
     if grab:
         res["grabbed"] = grabbed
     return res
@@ -938,6 +939,15 @@ def judge(run, lab, m, ln, o, r, text, replay_cmd=None):
     clean = True
     f = dict(kv.split("=", 1) for kv in o.split())
     run.case(ln)
+    fc = RF.fatal_clause(r)     # general clause, every run: a FATAL: line => non-zero exit and no code
+    if fc and r["rc"] == 0 and r["nfatal"] == r.get("nclashfatal") and any(fd["id"] == "C11-name-clash-fatal-exit0" for fd in run.findings):
+        run.known_finding("C11-name-clash-fatal-exit0", lab)
+        run.count("known:C11-name-clash-fatal-exit0")
+    elif fc:
+        clean = False
+        run.count("oracle_deviation")
+        run.violation("oracle:fatal-diagnostic-implies-failure", {"label": lab, "module_asn1": text, "input": text, "what": fc, "asn1c": r,
+                                                                  "replay_cmd": replay_cmd or "write module_asn1 to m.asn1; asn1c -S <skeletons> -fcompound-names m.asn1; echo $?"})
     fam = lab.split(":")[0] if not lab.startswith("coll:") else "coll:" + lab.split(":")[2]
     if lab.startswith("cof:"):
         fam = "cof:" + lab.split(":")[2].rsplit("-", 1)[0]
@@ -1067,6 +1077,11 @@ def main(tier):
                        def_lines, tagging_txt, DIAG)
     t2 = time.time()
     npm = PM.run_layer(run, Rng(run.seed * 15485863 + 3), tier, model, asn1c, skel, scratch(), NCPU, run_lines, sys.modules[__name__])
+    t3 = time.time()
+    # ---- wave 5: the ways a reference fails to resolve x where it is used (lib/c11_refs.py; several modules, IMPORTS / EXPORTS)
+    RF.KNOWN[:] = [("C11-import-unlisted-symbol-resolved", lambda way, use, want, r: way == "imp-unlisted" and not want and r["rc"] == 0 and r["nfatal"] == 0)]
+    nrf = RF.run_layer(run, Rng(run.seed * 32452843 + 9), tier, asn1c, skel, scratch(), NCPU)
+    sys.stderr.write("c11 layers: refs %.1fs (%d)\n" % (time.time() - t3, nrf))
     sys.stderr.write("c11 layers: tagmode %.1fs (%d) status %.1fs (%d) param %.1fs (%d)\n" % (t1 - t0, ntm, t2 - t1, nst, time.time() - t2, npm))
     for i in (0, len(cases) // 3, 2 * len(cases) // 3, len(cases) - 1):
         run.sample({"label": cases[i][0], "asn1": texts[i], "model": mo[i], "asn1c": {k: results[i][k] for k in ("rc", "verdict", "classes", "nfiles")}})
@@ -1083,7 +1098,8 @@ def main(tier):
                                  "tagging_mode_layer": "reference chains of 0..4 (random: ..6) definitions x terminal CHOICE/ANY/INTEGER/SEQUENCE x one tag at every hop in every mode, two tags at every pair of hops, random placements x use as SEQUENCE/SET/CHOICE component (root and additions), SEQUENCE OF/SET OF element, under [n] IMPLICIT/[n] EXPLICIT/[n]/nothing x EXPLICIT/IMPLICIT/AUTOMATIC TAGS; verdict per use and, for accepted modules, member tag/tag_mode and tags/all_tags vectors read from the generated .c files, against an independent X.680 computation and the extracted Fix/TagMode.v",
                                  "status_layer": "faults and valid controls of the single-module corpus (round-robin over the fault families) x 16 environments that make asn1c record a warning status elsewhere (unknown encoding reference, same-named module with another OID, clash with a standard-module value; same module / second module before or after / second file before or after; controls without warning) x with and without -Werror; exit status, files written, FATAL lines against the property text and against the extracted status fold (coq/Fix/Status.v)",
                                  "parameterized_layer": "template kind CHOICE/SET/SEQUENCE x shape (parameter first/last/nested/untagged/two parameters/OF element; template before or after its uses) x relation between the inline actual parameters of 2-3 specializations (equal, prefix, suffix, infix, permutation, differing only in tags/identifiers/types/flags/constraints, one level deeper, enumerations, primitive, named, nested instantiation) x order 12/21/121/212 x use at top level or as SEQUENCE member x E/I/A; verdict against the extracted spec on the module obtained by substituting every reference in Python; clone names P1_<line>P<k> in the generated headers against the number of different actual parameter lists and against the extracted specialization table (coq/Fix/ParamDistinct.v)",
-                                 "traces_validated_against_impl": len(cases) + ntm + nst + npm},
+                                 "reference_layer": "way a type / value reference fails to resolve or resolves (defined nowhere, local, IMPORTS from an absent module, from a present module without the definition, definition left out of EXPORTS, EXPORTS naming an undefined symbol, EXPORTS ALL / explicit list, external reference Module.Type in the same manners, chains of 2-4 re-exporting modules broken at every link by absence / missing definition / EXPORTS / missing IMPORTS, import cycles, symbol not in the IMPORTS list) x 20 use sites (member, OPTIONAL member, SET member, alternative, OF element, nested, alias, tagged alias, COMPONENTS OF, actual parameter, contained subtype; values: assignment, DEFAULT, range, SIZE, named number) x arrangement of modules in files; verdict against an independent X.680 resolver (lib/c11_refs.py resolves = coq/Fix/Resolve.v); on EVERY run of the check: FATAL line => non-zero exit and no code",
+                                 "traces_validated_against_impl": len(cases) + ntm + nst + npm + nrf},
                       assumptions=["model of libasn1fix is hand-written; tied by differential runs only on the generated modules",
                                    "specifications of the algebra in notes/design/C11.md; no IMPORTS, no constraints except inside actual parameters, ANY and SET OF only in the tagging-mode layer; several modules / files only in the status layer; parameterized types: one template with type parameters, substitution done in Python; COMPONENTS OF only of earlier definitions; extensible ENUMERATED only fully valued",
                                    "diagnostic classes are recognised by message text"])
